@@ -31,6 +31,7 @@ import (
 	"github.com/containers/nri-plugins/pkg/agent/podresapi"
 	cfgapi "github.com/containers/nri-plugins/pkg/apis/config/v1alpha1"
 	policyapi "github.com/containers/nri-plugins/pkg/apis/config/v1alpha1/resmgr/policy"
+	instmetrics "github.com/containers/nri-plugins/pkg/instrumentation/metrics"
 	"github.com/containers/nri-plugins/pkg/sysfs"
 	metav1 "k8s.io/apimachinery/pkg/apis/meta/v1"
 	podresv1 "k8s.io/kubelet/pkg/apis/podresources/v1"
@@ -56,6 +57,10 @@ func c15Config(gen int64) *cfgapi.TopologyAwarePolicy {
 	cfg := &cfgapi.TopologyAwarePolicy{}
 	cfg.ObjectMeta = metav1.ObjectMeta{Name: "default", Generation: gen}
 	cfg.Spec.Config.ReservedResources = policyapi.Constraints{policyapi.CPU: "750m"}
+	// From generation 2 on the metrics gatherer exists (no collectors enabled), so that
+	// metrics.Block() in the handlers takes a real second mutex: a handler that takes it
+	// before the pipeline lock deadlocks against the others.
+	cfg.Spec.Instrumentation.PrometheusExport = gen >= 2
 	return cfg
 }
 
@@ -147,12 +152,15 @@ type c15Phase struct {
 	PodsLeft       int    `json:"pods_left"`
 	ContainersLeft int    `json:"containers_left"`
 	PostLifecycle  string `json:"post_lifecycle,omitempty"`
+	// is metrics.Block() a real mutex in this phase (metrics gatherer present)?
+	Gatherer bool `json:"gatherer"`
 }
 
 type c15Rec struct {
 	sync.Mutex
 	ph    *c15Phase
 	maxNs int64
+	dead  bool // the phase was abandoned (deadlock watchdog): stop recording
 }
 
 func (r *c15Rec) call(name string, f func() error) {
@@ -162,7 +170,9 @@ func (r *c15Rec) call(name string, f func() error) {
 		defer func() {
 			if x := recover(); x != nil {
 				r.Lock()
-				r.ph.Panics[name]++
+				if !r.dead {
+					r.ph.Panics[name]++
+				}
 				r.Unlock()
 			}
 		}()
@@ -176,9 +186,11 @@ func (r *c15Rec) call(name string, f func() error) {
 		}
 	}
 	r.Lock()
-	r.ph.Calls[name]++
-	if err != nil {
-		r.ph.Errors[name]++
+	if !r.dead {
+		r.ph.Calls[name]++
+		if err != nil {
+			r.ph.Errors[name]++
+		}
 	}
 	r.Unlock()
 }
@@ -250,6 +262,9 @@ func c15RunAll(ph *c15Phase, r *c15Rec, budget time.Duration, fs []func()) {
 	case <-done:
 		ph.Completed = true
 	case <-time.After(budget):
+		r.Lock()
+		r.dead = true
+		r.Unlock()
 		buf := make([]byte, 1<<20)
 		n := runtime.Stack(buf, true)
 		s := string(buf[:n])
@@ -321,6 +336,101 @@ func TestVerifC15(t *testing.T) {
 		f.Close()
 	}
 
+	// ---- reconfigure: lifecycles concurrent with configuration updates
+	// (these two phases come first and share one instance: the metrics gatherer can only be
+	// created while a single policy instance has registered its collector in this process)
+	var shared *resmgr
+	if want["reconfigure"] {
+		m := c15New(t, root, "reconfigure")
+		shared = m
+		ph := c15NewPhase("reconfigure", N+1)
+		r := &c15Rec{ph: ph}
+		var fs []func()
+		var stop int32
+		var live int32 = int32(N)
+		for g := 0; g < N; g++ {
+			g := g
+			fs = append(fs, func() {
+				defer atomic.AddInt32(&live, -1)
+				rng := rand.New(rand.NewSource(seed*2000 + int64(g)))
+				for i := 0; i < iters; i++ {
+					c15Lifecycle(m, r, rng, fmt.Sprintf("r%d-%d", g, i), false)
+				}
+			})
+		}
+		fs = append(fs, func() {
+			gen := int64(2)
+			for atomic.LoadInt32(&live) > 0 && atomic.LoadInt32(&stop) == 0 {
+				cfg := c15Config(gen)
+				gen++
+				r.call("reconfigure", func() error { return m.reconfigure(cfg) })
+				time.Sleep(time.Millisecond)
+			}
+		})
+		c15RunAll(ph, r, budget, fs)
+		atomic.StoreInt32(&stop, 1)
+		if ph.Completed {
+			c15Quiesce(m, ph, r)
+		}
+		if b := instmetrics.Block(); b != nil {
+			ph.Gatherer = true
+			b.Done()
+		}
+		results = append(results, ph)
+		flush(false)
+	}
+
+	// ---- synchronize: Synchronize over a fixed set, concurrent with updates of that set and reconfigure
+	if want["synchronize"] {
+		m := shared
+		if m == nil {
+			m = c15New(t, root, "synchronize")
+		}
+		ph := c15NewPhase("synchronize", 3)
+		r := &c15Rec{ph: ph}
+		ctx := context.Background()
+		var pods []*api.PodSandbox
+		var ctrs []*api.Container
+		for i := 0; i < 3; i++ {
+			id := fmt.Sprintf("s%d", i)
+			pod := c15Pod(id, "burstable")
+			pods = append(pods, pod)
+			r.call("RunPodSandbox", func() error { return m.nri.RunPodSandbox(ctx, pod) })
+			c := c15Ctr(id+"-c0", id, 300, false)
+			ctrs = append(ctrs, c)
+			r.call("CreateContainer", func() error { _, _, e := m.nri.CreateContainer(ctx, pod, c); return e })
+			r.call("StartContainer", func() error { return m.nri.StartContainer(ctx, pod, c) })
+			c.State = api.ContainerState_CONTAINER_RUNNING
+		}
+		r.call("reconfigure", func() error { return m.reconfigure(c15Config(50)) })
+		if b := instmetrics.Block(); b != nil {
+			ph.Gatherer = true
+			b.Done()
+		}
+		var fs []func()
+		fs = append(fs, func() {
+			for i := 0; i < 2*iters; i++ {
+				r.call("Synchronize", func() error { _, e := m.nri.Synchronize(ctx, pods, ctrs); return e })
+			}
+		})
+		fs = append(fs, func() {
+			rng := rand.New(rand.NewSource(seed * 3000))
+			for i := 0; i < 6*iters; i++ {
+				k := rng.Intn(len(ctrs))
+				res := c15Ctr("x", pods[k].Id, int64(200+100*rng.Intn(3)), false).Linux.Resources
+				r.call("UpdateContainer", func() error { _, e := m.nri.UpdateContainer(ctx, pods[k], ctrs[k], res); return e })
+			}
+		})
+		fs = append(fs, func() {
+			for i := 0; i < 2*iters; i++ {
+				cfg := c15Config(int64(100 + i))
+				r.call("reconfigure", func() error { return m.reconfigure(cfg) })
+			}
+		})
+		c15RunAll(ph, r, budget, fs)
+		results = append(results, ph)
+		flush(false)
+	}
 	// ---- seq: one goroutine, one full lifecycle (the fetch goroutine is the only concurrency)
 	if want["seq"] {
 		m := c15New(t, root, "seq")
@@ -412,84 +522,5 @@ func TestVerifC15(t *testing.T) {
 		flush(false)
 	}
 
-	// ---- reconfigure: lifecycles concurrent with configuration updates
-	if want["reconfigure"] {
-		m := c15New(t, root, "reconfigure")
-		ph := c15NewPhase("reconfigure", N+1)
-		r := &c15Rec{ph: ph}
-		var fs []func()
-		var stop int32
-		var live int32 = int32(N)
-		for g := 0; g < N; g++ {
-			g := g
-			fs = append(fs, func() {
-				defer atomic.AddInt32(&live, -1)
-				rng := rand.New(rand.NewSource(seed*2000 + int64(g)))
-				for i := 0; i < iters; i++ {
-					c15Lifecycle(m, r, rng, fmt.Sprintf("r%d-%d", g, i), false)
-				}
-			})
-		}
-		fs = append(fs, func() {
-			gen := int64(2)
-			for atomic.LoadInt32(&live) > 0 && atomic.LoadInt32(&stop) == 0 {
-				cfg := c15Config(gen)
-				gen++
-				r.call("reconfigure", func() error { return m.reconfigure(cfg) })
-				time.Sleep(time.Millisecond)
-			}
-		})
-		c15RunAll(ph, r, budget, fs)
-		atomic.StoreInt32(&stop, 1)
-		if ph.Completed {
-			c15Quiesce(m, ph, r)
-		}
-		results = append(results, ph)
-		flush(false)
-	}
-
-	// ---- synchronize: Synchronize over a fixed set, concurrent with updates of that set and reconfigure
-	if want["synchronize"] {
-		m := c15New(t, root, "synchronize")
-		ph := c15NewPhase("synchronize", 3)
-		r := &c15Rec{ph: ph}
-		ctx := context.Background()
-		var pods []*api.PodSandbox
-		var ctrs []*api.Container
-		for i := 0; i < 3; i++ {
-			id := fmt.Sprintf("s%d", i)
-			pod := c15Pod(id, "burstable")
-			pods = append(pods, pod)
-			r.call("RunPodSandbox", func() error { return m.nri.RunPodSandbox(ctx, pod) })
-			c := c15Ctr(id+"-c0", id, 300, false)
-			ctrs = append(ctrs, c)
-			r.call("CreateContainer", func() error { _, _, e := m.nri.CreateContainer(ctx, pod, c); return e })
-			r.call("StartContainer", func() error { return m.nri.StartContainer(ctx, pod, c) })
-			c.State = api.ContainerState_CONTAINER_RUNNING
-		}
-		var fs []func()
-		fs = append(fs, func() {
-			for i := 0; i < 2*iters; i++ {
-				r.call("Synchronize", func() error { _, e := m.nri.Synchronize(ctx, pods, ctrs); return e })
-			}
-		})
-		fs = append(fs, func() {
-			rng := rand.New(rand.NewSource(seed * 3000))
-			for i := 0; i < 6*iters; i++ {
-				k := rng.Intn(len(ctrs))
-				res := c15Ctr("x", pods[k].Id, int64(200+100*rng.Intn(3)), false).Linux.Resources
-				r.call("UpdateContainer", func() error { _, e := m.nri.UpdateContainer(ctx, pods[k], ctrs[k], res); return e })
-			}
-		})
-		fs = append(fs, func() {
-			for i := 0; i < 2*iters; i++ {
-				cfg := c15Config(int64(100 + i))
-				r.call("reconfigure", func() error { return m.reconfigure(cfg) })
-			}
-		})
-		c15RunAll(ph, r, budget, fs)
-		results = append(results, ph)
-		flush(false)
-	}
 	flush(true)
 }
